@@ -868,6 +868,11 @@ class C08(Prop):
             if len(hist) > 1:
                 for i in range(len(hist)):
                     yield {**copy.deepcopy(case), "history": [copy.deepcopy(h) for j, h in enumerate(hist) if j != i]}
+        for i, h in enumerate(hist):
+            for hc in self.shrink(h):
+                c = copy.deepcopy(case)
+                c["history"][i] = hc
+                yield c
         for k in ("date", "nan_plan", "text"):
             if k in case:
                 yield {kk: v for kk, v in copy.deepcopy(case).items() if kk != k}
